@@ -75,6 +75,8 @@ pub struct Ctx {
     /// replay of a hang: execute calls before this ordinal, name the one at it, skip the rest
     dry_limit: Option<u32>,
     dry_name: Option<&'static str>,
+    /// replay: print every call and its outcome
+    verbose: bool,
     pub stats: Vec<TStat>,
     pub found: BTreeMap<String, Finding>,
     pub machinery: Vec<String>,
@@ -104,6 +106,7 @@ impl Ctx {
             ordinal: 0,
             dry_limit: None,
             dry_name: None,
+            verbose: false,
             stats: vec![TStat::default(); PROBES.len()],
             found: BTreeMap::new(),
             machinery: vec![],
@@ -150,8 +153,16 @@ impl Ctx {
         self.slot.ordinal.store(self.ordinal, Ordering::Relaxed);
         self.stats[self.ty].calls += 1;
         match catch_unwind(AssertUnwindSafe(f)) {
-            Ok(r) => Some(std::hint::black_box(r)),
+            Ok(r) => {
+                if self.verbose {
+                    println!("  {:>3} {:<36} returned", self.ordinal, name);
+                }
+                Some(std::hint::black_box(r))
+            }
             Err(p) => {
+                if self.verbose {
+                    println!("  {:>3} {:<36} PANICKED at {}", self.ordinal, name, last_panic_loc());
+                }
                 self.record_panic(b, name, p);
                 None
             }
@@ -877,6 +888,7 @@ pub fn replay(art: &serde_json::Value) -> i32 {
     let inp = input.clone();
     std::thread::spawn(move || {
         let mut cx = Ctx::new();
+        cx.verbose = true;
         cx.begin_group(tyi);
         (PROBES[tyi].1)(&mut cx, &inp);
         let _ = tx.send((cx.stats[tyi].clone(), cx.found, cx.machinery));
@@ -892,13 +904,12 @@ pub fn replay(art: &serde_json::Value) -> i32 {
             }
             if !mach.is_empty() {
                 2
-            } else if found.contains_key(&want) || (want.is_empty() && !found.is_empty()) {
+            } else if !found.is_empty() {
+                if !found.contains_key(&want) {
+                    println!("(the recorded signature {} did not recur; this input still violates the property with the signatures above)", want);
+                }
                 1
             } else {
-                if !found.is_empty() {
-                    println!("(the recorded signature {} did not recur; other signatures listed above)", want);
-                    return 1;
-                }
                 println!("no violation on replay");
                 0
             }
